@@ -90,6 +90,29 @@ def write_names(fb, d):
             v = hirq.lit_value(x["args"][1])
             if isinstance(v, str):
                 elems.add(v)
+    # attributes pushed through a local helper closure:  let mut push_if = |cond, name, value| { if cond { attributes.push((name, value)) } };
+    helpers = {}
+    for x in hirq.walk(h["body"]):
+        if x.get("k") == "let" and x.get("init") and x["pat"].get("k") == "bind":
+            c = hirq.strip(x["init"])
+            if c.get("k") == "closure":
+                plids = [p_.get("lid") for p_ in c.get("params", [])]
+                name_pos = set()
+                for y in hirq.walk(c["body"]):
+                    if y.get("k") == "tup" and len(y.get("es", [])) == 2:
+                        f0 = hirq.strip(y["es"][0])
+                        if f0.get("k") == "path" and f0.get("lid") in plids:
+                            name_pos.add(plids.index(f0["lid"]))
+                if name_pos:
+                    helpers[x["pat"].get("lid")] = name_pos
+    if helpers:
+        for x in hirq.walk(h["body"]):
+            if x.get("k") == "call" and not x.get("def") and x.get("lid") in helpers:
+                for i in helpers[x["lid"]]:
+                    if i < len(x.get("args", [])):
+                        v = hirq.lit_value(x["args"][i])
+                        if isinstance(v, str):
+                            attrs.add(v)
     return attrs, elems
 
 
